@@ -4,6 +4,7 @@ import (
 	"fmt"
 	"go/ast"
 	"go/constant"
+	"go/token"
 	"go/types"
 	"sort"
 	"strings"
@@ -39,6 +40,8 @@ func rulesC04(c *Ctx) {
 	c.Floor("C04.bounds", c.CountRule("C04.bounds"), 15)
 	c.Floor("C04.panics", c.CountRule("C04.panics"), 4)
 
+	// ---- nil tests that cannot succeed ----
+	typedNilC04(c)
 	// ---- token ring ----
 	tokringC04(c)
 	// ---- rune ring ----
@@ -496,4 +499,70 @@ func eofRegistered(p *Program, tt *tokenTable) string {
 		bad = fmt.Sprintf("only %d registration tokens found", n)
 	}
 	return bad
+}
+
+// typedNilC04: a nil test on an interface value that was just built from a
+// concrete pointer never succeeds; the code believes the value can be absent
+// (it tests for it) and then uses it as present.
+func typedNilC04(c *Ctx) {
+	p := c.P
+	c.Rule("C04.typednil", "no comparison with nil is made on an interface value that on every incoming path was converted from a concrete pointer (the comparison is false even when the pointer is nil): the `missing operand` guards of the parser must test the pointer itself")
+	n := 0
+	var onlyBoxed func(v ssa.Value, depth int) (boxed bool, from ssa.Value)
+	onlyBoxed = func(v ssa.Value, depth int) (bool, ssa.Value) {
+		if depth > 4 {
+			return false, nil
+		}
+		switch x := v.(type) {
+		case *ssa.MakeInterface:
+			if _, ok := x.X.Type().Underlying().(*types.Pointer); ok {
+				if _, isAlloc := x.X.(*ssa.Alloc); !isAlloc {
+					return true, x.X
+				}
+			}
+		case *ssa.Phi:
+			var from ssa.Value
+			for _, e := range x.Edges {
+				ok, f := onlyBoxed(e, depth+1)
+				if !ok {
+					return false, nil
+				}
+				from = f
+			}
+			return from != nil, from
+		}
+		return false, nil
+	}
+	for _, fn := range p.SrcFuncs() {
+		fns := append([]*ssa.Function{fn}, fn.AnonFuncs...)
+		for _, f := range fns {
+			for _, b := range f.Blocks {
+				for _, in := range b.Instrs {
+					bo, ok := in.(*ssa.BinOp)
+					if !ok || (bo.Op != token.EQL && bo.Op != token.NEQ) {
+						continue
+					}
+					if _, ok := bo.X.Type().Underlying().(*types.Interface); !ok {
+						continue
+					}
+					var other ssa.Value
+					if k, ok := bo.Y.(*ssa.Const); ok && k.Value == nil {
+						other = bo.X
+					} else if k, ok := bo.X.(*ssa.Const); ok && k.Value == nil {
+						other = bo.Y
+					}
+					if other == nil {
+						continue
+					}
+					n++
+					if boxed, from := onlyBoxed(other, 0); boxed {
+						key := fmt.Sprintf("%s: nil test of a boxed %s", f.Name(), p.TypeStr(from.Type()))
+						c.Bad("C04.typednil", key, bo.Pos(), "the tested interface value always holds a (possibly nil) "+p.TypeStr(from.Type())+": the test never reports a missing value, and the nil pointer is handed on as if present")
+					}
+				}
+			}
+		}
+	}
+	c.OK("C04.typednil", "interface nil tests examined", 0, fmt.Sprintf("%d comparisons of an interface value with nil; none is on a freshly boxed pointer", n))
+	c.Floor("C04.typednil", n, 40)
 }
